@@ -1178,18 +1178,21 @@ pub fn main(args: &[String]) {
         }
         "kcases2" | "kcases3" => {
             // K2 cases: every eligible block container of the oracle trees 0..n (tagged with tree index and node)
-            // K3 (C05 / C06): the same protocol on trees where 30 % of the nodes are position:absolute and 25 % display:none;
+            // K3 (C05 / C06 / C10): the same protocol on trees with many position:absolute and / or display:none nodes;
             // only containers that have such a child AND an in-flow child are printed
+            // `kcases3 <seed> <n> <p_absolute> <p_hidden>` (per mille); C06 runs it without hidden children, C05 without absolute
+            // ones (so that a defect of one property does not break the other's K), C10 with both
             let mix = args[0] == "kcases3";
             let (seed, n) = (num(1), num(2));
-            let only: Option<(u64, usize)> = if args.len() > 4 { Some((num(3), num(4) as usize)) } else { None };
+            let (p_abs, p_hid) = if mix && args.len() > 4 { (num(3), num(4)) } else { (300, 250) };
+            let only: Option<(u64, usize)> = if !mix && args.len() > 4 { Some((num(3), num(4) as usize)) } else { None };
             for idx in 0..n {
                 if let Some((i, _)) = only {
                     if i != idx {
                         continue;
                     }
                 }
-                let (spec, avail) = if mix { ocase_mix(seed, idx, 300, Some(250)) } else { ocase(seed, idx) };
+                let (spec, avail) = if mix { ocase_mix(seed, idx, p_abs, Some(p_hid)) } else { ocase(seed, idx) };
                 let r = std::panic::catch_unwind(|| {
                     let laid = lay_out(&spec, avail);
                     let mut v = vec![];
